@@ -664,6 +664,8 @@ class World:  # pylint: disable=too-many-instance-attributes
         sizes = sorted(len(v) for v in self.aux_model.values()) or [0]
         budget_choice = op['b'] % 3
         budget = (1, sizes[len(sizes) // 2] + 1, 104857600)[budget_choice]
+        if op['f'] & 8 and budget_choice:
+            budget = sizes[-1] + 1  # every object fits the cache, which is flushed whenever the next one would overflow it
         return {
             'keys': keys,
             'iterable': op['a'] % 4,
